@@ -124,7 +124,12 @@ def analyse_python(job):
             continue
         under_try = bool(info["stacks"]) and all(any((fl[0], fl[1]) in try_sites for fl in st) for st in info["stacks"])
         caller_cls = def_of[callerk]["cls"] if callerk[1] != "<module>" else None
-        kind = gen_calls.event_kind(project, site, d["qual"], sorted(info["recv"]), under_try, caller_cls)
+        other_cycle = False
+        for st_ in info["stacks"]:
+            fns = [fl[2] for fl in st_ if fl[2] != calleek]
+            if len(fns) != len(set(fns)):
+                other_cycle = True
+        kind = gen_calls.event_kind(project, site, d["qual"], sorted(info["recv"]), under_try, caller_cls, other_cycle)
         if lang != "python":
             kind = f"{lang}/{kind}"
         if job.get("enable_p2"):
@@ -318,7 +323,7 @@ def main():
         v = r.value
         chk.evaluated(1)
         chk.count("call events judged (distinct entry/caller/line/callee)", v["events"])
-        chk.count("dynamic calls executed by CPython", v["dyn_calls"])
+        chk.count("dynamic calls executed by the oracle (CPython, node)", v["dyn_calls"])
         chk.count("P3 frames recorded by the wrapper", v["frames"])
         chk.count("P3 wrapper invocations", v["wrapper_calls"])
         chk.count("stored call paths read", v["paths"])
